@@ -85,6 +85,7 @@ def run(tier):
         r["translate"]["treename"] = encode(r["translate"]["treename"])
         for run_ in r["runs"]:
             types = []
+            run_["booked"]["consumes"] = [[c[0], encode(c[1])] + list(c[2:]) for c in run_["booked"].get("consumes", [])]
             for t in run_["booked"]["trees"]:
                 t["tree"] = encode(t["tree"])
                 for br in t["branches"]:
@@ -98,7 +99,7 @@ def run(tier):
     cbyid = {c["id"]: c for c in cases}
     pf = pcheck.PFindings(rep.findings)
     clauses = {"Accepts", "Compiles", "BookingFault", "RowsMatch", "SchemaMatches", "DescriptorMatches", "RequestsAdmissible",
-               "SpuriousFault", "FaultMissed", "OneTree"}
+               "SpuriousFault", "FaultMissed", "OneTree", "TokensPerUse"}
     seen_clause = {}
     for cid, clause, run_i, pos in verdicts:
         if clause not in clauses:
@@ -136,6 +137,9 @@ def _literal_of(q):
     lits = [n["b"] for n in pcheck._subterms(q) if n["k"] == "Lit"]
     if lits:
         return ",".join(lits)
+    banks = [n["b"] for n in pcheck._subterms(q) if n["k"] == "Coll"]
+    if len(banks) > 1:
+        return "+".join(banks)
     for n in pcheck._subterms(q):
         if n["k"] == "Coll":
             return n["b"]
